@@ -7,12 +7,12 @@ import subprocess
 import sys
 import time
 
-from tlcrun import SPEC, VERIF, WORK, cfg_text, run_tlc, trace_actions
+from tlcrun import LANE, LANE_DIR, REPO, SPEC, VERIF, WORK, cfg_text, run_tlc, trace_actions
 
-HARNESS_DIR = os.path.join(VERIF, "harness")
+HARNESS_DIR = os.path.join(LANE_DIR, "harness") if LANE else os.path.join(VERIF, "harness")
 HARNESS_BIN = os.path.join(HARNESS_DIR, "target", "debug", "sighook-verif-harness")
-EVIDENCE = os.path.join(VERIF, "evidence")
-REPLAY = os.path.join(VERIF, "work", "replay")
+EVIDENCE = os.path.join(LANE_DIR, "evidence") if LANE else os.path.join(VERIF, "evidence")
+REPLAY = os.path.join(WORK, "replay")
 KNOWN = os.path.join(VERIF, "known-findings.json")
 
 
@@ -26,11 +26,24 @@ def log(msg):
 
 def build_harness():
     """(Re)build the harness against /repo's current working tree, hooks on."""
+    import shutil
     os.makedirs(WORK, exist_ok=True)
+    if LANE:
+        # private copy of the harness sources pointing at the lane's checkout
+        os.makedirs(EVIDENCE, exist_ok=True)
+        src = os.path.join(VERIF, "harness")
+        os.makedirs(HARNESS_DIR, exist_ok=True)
+        if os.path.isdir(os.path.join(HARNESS_DIR, "src")):
+            shutil.rmtree(os.path.join(HARNESS_DIR, "src"))
+        shutil.copytree(os.path.join(src, "src"), os.path.join(HARNESS_DIR, "src"))
+        shutil.copytree(os.path.join(src, ".cargo"), os.path.join(HARNESS_DIR, ".cargo"), dirs_exist_ok=True)
+        with open(os.path.join(src, "Cargo.toml")) as f:
+            toml = f.read().replace('"/repo', '"' + REPO)
+        with open(os.path.join(HARNESS_DIR, "Cargo.toml"), "w") as f:
+            f.write(toml)
     lock = os.path.join(HARNESS_DIR, "Cargo.lock")
     if not os.path.exists(lock):
-        import shutil
-        shutil.copy("/repo/Cargo.lock", lock)
+        shutil.copy(os.path.join(REPO, "Cargo.lock"), lock)
     env = dict(os.environ)
     env["CARGO_NET_OFFLINE"] = "true"
     t0 = time.time()
@@ -128,7 +141,8 @@ def validate_trace(module, trace_path, name, constants=None, invariants=(), time
     if r.violation and r.violation != "postcondition":
         # an invariant of the spec failed on the state reached by replaying the real steps
         res.violation = r.violation
-        res.rejected_at = (int(m.group(1)) - 1) if m else (len(r.trace) or None)
+        # the counterexample has one state per consumed record plus the initial one
+        res.rejected_at = (int(m.group(1)) - 1) if m else ((len(r.trace) - 1) or None)
         res.last_state = r.trace[-1]["text"] if r.trace else ""
         return res
     if m:
